@@ -30,6 +30,15 @@ def handleCommute (st : St) (op : String) (j : Json) : Option (D (St × Json)) :
       return (st, ok (Json.arr #[Json.bool (insideLeft d.kids f1 t1 e1 f2 t2 e2),
         Json.bool (insideRight d.kids f1 t1 e1 f2 t2 e2), Json.bool (commuteGuard d.kids f1 t1 s1 f2 t2 s2)]))
     | _, _ => return (st, ok Json.null)
+  | "gapGuard" => some do
+    -- a replace-around step `a` and a replace / replace-around step `b` strictly inside its kept gap
+    let d ← node (← field j "doc")
+    let a ← step (← field j "a")
+    let b ← step (← field j "b")
+    match a, replRange b with
+    | .replaceAround _ _ gf gt _ _ _, some (f1, t1, s1) =>
+      return (st, ok (Json.bool (gapGuard d.kids gf gt f1 t1 s1)))
+    | _, _ => return (st, ok Json.null)
   | "aroundShape" => some do
     match (← step (← field j "step")) with
     | .replaceAround f t gf gt sl ins _ => return (st, ok (Json.bool (aroundShape f t gf gt sl ins)))
